@@ -63,7 +63,7 @@ CLAIMED = {
              "(no in-place mutation through a branch handed out by extract_global_state or already inserted; shown necessary by two concrete histories), "
              "abs (run s0 ops) = Spec.run (abs s0) ops with equal outcome traces, Spec a pure value map; isolation, insert_readback, between_commits, "
              "active_extraction are corollaries stated on the spec and transported. Python "
-             "set iteration order is not modelled (two-level dictionary order compared as sets). Trusted: Lean kernel + standard axioms, harness.",
+             "set iteration order is not modelled (two-level dictionary order compared as sets). Trusted: Lean kernel + standard axioms, harness. 30% of the sessions run with DEBUG logging enabled (the handler caches isEnabledFor(DEBUG) and takes other code paths). The output handlers receive the extracted GLOBAL state, which hands out the stored field objects: the output-handler sessions of harness/outcorr.py compare the handed state before and after every write (a write that modifies it changes the global state at a sampling event, without a commit).",
         technique="Lean 4 proof over a hand-written reference-store model + differential correspondence (operation sequences and real runs)",
         ref="§5 C13"),
     "C10": dict(
@@ -203,7 +203,7 @@ CLAIMED = {
              "handlers' is evaluated on the implementation.",
         note="Footprint tables (which handler class may change motion/identity/cell) are hypotheses of the link theorem, tied to the code "
              "only by the run-level oracle and the activator replay. Trusted: translator .ini -> Lean data (self-checked against the real "
-             "factory-built activator every run).",
+             "factory-built activator every run). Multi-process histories (3 and 4 cores, seeded wait adversary; soft spheres and dipole_motion.ini) and runs whose heap-scheduler counters wrap around 2^32 inside the trace are judged by the oracle as well; system level for composite objects with cells: c08_closed3, c08_stale_trashed_closed3 (JF/Props/SystemInv3Loop.lean, hooked into C09).",
         technique="Lean 4 proof over a hand-written activator model + generated decidable obligations per .ini + run-level oracle/replay",
         ref="§5 C09/C08, §4"),
     "C09": dict(
@@ -352,7 +352,7 @@ CLAIMED = {
              "hypothesis of the theorems and is searched numerically on the freshly compiled C routines (corners/edges down to 1e-8 L, "
              "multi-start, both charge signs; supremum 0.999902); run level: every (bound, true, draw) of real thinned events re-derived.",
         note="PARTIAL: Dominates for the real Ewald derivative with prefactor 1.5837 cannot be proved in Lean here (DESIGN §10): the theorems "
-             "leaf/summed_one_over_r_sound_partial carry it as a hypothesis; a ratio > 1 found by the search is a concrete failing input.",
+             "leaf/summed_one_over_r_sound_partial carry it as a hypothesis; a ratio > 1 found by the search is a concrete failing input. The two root-unit-active handlers of dipole_motion.ini are in the correspondence as kinds 7 and 8 (sendRoot / passComposite in JF/Model/Thinning.lean, Part H of JF/Props/C04.lean: sendRoot_spec, root_thinning_exact, root_zero_rate_rejected, root_thinned_rate, root_one_over_r_sound_partial; kind 8 is directly invertible and judged by an implementation-level oracle). For a SUMMED bound (kinds 4 and 7) the oracle demands one independent exponential potential change per pair displacement, otherwise the candidate is not drawn at the bounding rate the confirmation ratio divides by.",
         technique="Lean 4 proof of the decision logic over a hand-written model + bit-exact differential correspondence + numerical domination search",
         ref="§5 C04, §10"),
 }
